@@ -377,11 +377,13 @@ def watchList : M (List Path) := do
 def newEvent (name linkName : Path) (mask : BitVec 32) : Ev :=
   { name := if linkName != [] then linkName else name, op := kqueueNewEventOp mask }
 
+/-- the Create of `sendCreateIfNew`: sent unless the path was seen before; `false` = the Watcher is closed -/
+def announce (path : Path) : M Bool := do
+  if !(← seenBefore path) then sendEvent { name := path, op := Create } else pure true
+
 /-- `sendCreateIfNew(path, fi)` -/
 def sendCreateIfNew (path : Path) (k : Kind) : M (Option Err) := do
-  let seen ← seenBefore path
-  let cont ← if !seen then sendEvent { name := path, op := Create } else pure true
-  if !cont then pure none else
+  if !(← announce path) then pure none else
   match ← internalWatch (addWatch fuel) path k with
   | .error e => pure (some e)
   | .ok watched => do
@@ -406,18 +408,22 @@ def dirChange (d : Path) : M (Option Err) := do
         | some e => pure (some (some e))) files
     pure (r.getD none)
 
-/-- the body of the `for _, kevent := range kevents` loop; `false` = the reader returns -/
-def handleKevent (fd : Nat) (mask : BitVec 32) : M Bool := do
-  let (path, _) ← byWd fd
-  let event := newEvent path.name path.linkName mask
+/-- `if event.Has(Rename) || event.Has(Remove) { w.remove(event.Name, false); w.watches.markSeen(event.Name, false) }` -/
+def dropIfGone (event : Ev) : M Unit := do
   if opHas event.op Rename || opHas event.op Remove then
     let _ ← remove event.name false
     markSeen event.name false
-  let cont ← if path.isDir && opHas event.op Write && !(opHas event.op Remove) then do
-      let _ ← dirChange event.name
-      pure true
-    else sendEvent event
-  if !cont then pure false else
+  else pure ()
+
+/-- a directory's Write becomes `dirChange`; everything else is sent. `false` = the reader returns -/
+def deliver (path : KW) (event : Ev) : M Bool := do
+  if path.isDir && opHas event.op Write && !(opHas event.op Remove) then
+    let _ ← dirChange event.name
+    pure true
+  else sendEvent event
+
+/-- `if event.Has(Remove) { … }`: look for something that took the removed name -/
+def afterRemove (path : KW) (event : Ev) : M Bool := do
   if opHas event.op Remove then
     if path.isDir then
       let fileDir := clean event.name
@@ -434,6 +440,13 @@ def handleKevent (fd : Nat) (mask : BitVec 32) : M Bool := do
         let err ← sendCreateIfNew p fi
         sendError err
   else pure true
+
+/-- the body of the `for _, kevent := range kevents` loop; `false` = the reader returns -/
+def handleKevent (fd : Nat) (mask : BitVec 32) : M Bool := do
+  let (path, _) ← byWd fd
+  let event := newEvent path.name path.linkName mask
+  dropIfGone event
+  if !(← deliver path event) then pure false else afterRemove path event
 
 def handleBatch : List (Nat × BitVec 32) → M Bool
   | [] => pure true
